@@ -28,6 +28,10 @@ pub struct Burst {
     pub madctl: u8,
     pub pixels: u64,
     pub words: u64,
+    /// colours of the pixels that were only book-kept (fills of more than 2^26 cells): the first one,
+    /// and whether any other colour followed
+    pub bulk_colour: Option<u32>,
+    pub bulk_mixed: bool,
 }
 
 impl Burst {
@@ -422,6 +426,8 @@ impl Panel {
                         madctl: self.madctl,
                         pixels: 0,
                         words: 0,
+                        bulk_colour: None,
+                        bulk_mixed: false,
                     });
                 }
             }
@@ -532,6 +538,25 @@ impl Panel {
             ));
             return;
         };
+        if (!self.acc.is_empty() || pixel.len() != n) && pixel.iter().all(|w| *w == pixel[0]) {
+            // one word repeated (e.g. a driver that sends black as single bytes): the same word stream as
+            // an aligned repeat once the pixel in progress is completed
+            let one = [pixel[0]];
+            let mut rest = count * pixel.len() as u64;
+            while !self.acc.is_empty() && rest > 0 {
+                self.data_words(&one);
+                rest -= 1;
+            }
+            let (full, tail) = (rest / n as u64, rest % n as u64);
+            if full > 0 {
+                let px = vec![pixel[0]; n];
+                self.repeat(&px, full);
+            }
+            for _ in 0..tail {
+                self.data_words(&one);
+            }
+            return;
+        }
         if !self.acc.is_empty() || pixel.len() != n {
             // misaligned: fall back to word-wise processing with a cap
             let cap = 1u64 << 22;
@@ -547,13 +572,18 @@ impl Panel {
         self.note_pix_words(count * n as u64);
         let c = self.decode(pixel);
         let area = self.bursts.last().map(|b| b.area()).unwrap_or(0);
-        if area > (1 << 26) && count > (1 << 26) {
+        if area > (1 << 26) {
             // e.g. clear() of a 65535x65535 framebuffer: only the bookkeeping is kept
             self.bulk_fills += 1;
             self.mem_valid = false;
             self.pixels_total += count;
             if let Some(b) = self.bursts.last_mut() {
                 b.pixels += count;
+                match b.bulk_colour {
+                    None => b.bulk_colour = Some(c),
+                    Some(c0) if c0 != c => b.bulk_mixed = true,
+                    _ => {}
+                }
             }
             if count > area {
                 self.wrapped += 1;
